@@ -46,6 +46,10 @@ func doneChannel(t *ssa.Function) (string, *ssa.Defer) {
 		switch x := in.(type) {
 		case *ssa.Defer:
 			if cname(x) == "builtin.close" {
+				if p, isParam := x.Call.Args[0].(*ssa.Parameter); isParam {
+					// the goroutine is a function/method that is handed its completion channel
+					return "param:" + p.Name(), x
+				}
 				return chanName(x.Call.Args[0]), x
 			}
 			return "", nil
@@ -118,8 +122,26 @@ func ruleGoHandshake(r *Report) {
 			r.Ok(rule, key+"/e-no-failure-after-spawn", gs.stmt.Pos(), "no error return is reachable after the go statement")
 		}
 		isCycle := gs.spawner.Parent() == nil && t.Parent() == gs.spawner && doneIsLocal(done)
+		isDone := func(v ssa.Value) bool { return chanName(v) == done }
+		if strings.HasPrefix(done, "param:") {
+			// `go gc.runCycle(ctx, limit, gcDone)`: the supervisor's channel is the value passed for that
+			// parameter; the supervisor's variable is every value in the same phi-web as it
+			var arg ssa.Value
+			off := len(gs.stmt.Call.Args) - len(t.Params)
+			for i, p := range t.Params {
+				if "param:"+p.Name() == done && i+off >= 0 && i+off < len(gs.stmt.Call.Args) {
+					arg = gs.stmt.Call.Args[i+off]
+				}
+			}
+			if sel, _, _ := stopSelect(gs.spawner); arg != nil && sel != nil && gs.spawner.Parent() == nil {
+				isCycle = true
+				isDone = func(v ssa.Value) bool {
+					return v == arg || derives(v, flowOpts{}, func(x ssa.Value) bool { return x == arg }) || derives(arg, flowOpts{}, func(x ssa.Value) bool { return x == v })
+				}
+			}
+		}
 		if isCycle {
-			checkSupervisor(r, rule, gs, done)
+			checkSupervisor(r, rule, gs, done, isDone)
 			continue
 		}
 		// (b) the goroutine's loop has a stop branch that returns
@@ -208,7 +230,7 @@ func checkStopBranch(r *Report, rule, key string, t *ssa.Function) {
 }
 
 // checkSupervisor: gs is a cycle closure started by a supervisor loop.
-func checkSupervisor(r *Report, rule string, gs goSite, done string) {
+func checkSupervisor(r *Report, rule string, gs goSite, done string, isDone func(ssa.Value) bool) {
 	sup := gs.spawner
 	key := shortFunc(sup) + "/cycle"
 	sel, idx, stop := stopSelect(sup)
@@ -226,14 +248,16 @@ func checkSupervisor(r *Report, rule string, gs goSite, done string) {
 		}
 	})
 	ctxOK := false
-	if len(gs.stmt.Call.Args) > 0 {
-		ctxOK = derives(gs.stmt.Call.Args[0], flowOpts{}, isCallTo("context.WithCancel"))
+	for _, a := range gs.stmt.Call.Args { // the context argument (the first one of a closure, after the receiver of a method)
+		if strings.HasSuffix(a.Type().String(), "context.Context") && derives(a, flowOpts{}, isCallTo("context.WithCancel")) {
+			ctxOK = true
+		}
 	}
 	r.Check(ctxOK && cancel != nil, rule, key+"/c-cycle-context-cancellable", gs.stmt.Pos(), "the cycle runs under a context the supervisor can cancel", "the GC cycle is not started with a context derived from the supervisor's cancellable context: Close cannot interrupt a running cycle")
 	// a new cycle is scheduled only once the running one has finished
 	doneIdx := -1
 	for i, st := range sel.States {
-		if st.Dir == 2 && chanName(st.Chan) == done {
+		if st.Dir == 2 && isDone(st.Chan) {
 			doneIdx = i
 		}
 	}
@@ -271,13 +295,19 @@ func checkSupervisor(r *Report, rule string, gs goSite, done string) {
 			r.BadPath(rule, key+"/c-stop-cancels-cycle", instrPos(sel), "on "+stop+" the supervisor can return without cancelling the running cycle's context", p1)
 		}
 		// and waits for a running cycle: every path to return passes <-done or the done==nil edge
-		recvs := instrSet(recvsOn(sup, done))
+		var recvList []ssa.Instruction
+		eachInstr(sup, func(in ssa.Instruction) {
+			if u, ok := in.(*ssa.UnOp); ok && u.Op == token.ARROW && isDone(u.X) {
+				recvList = append(recvList, u)
+			}
+		})
+		recvs := instrSet(recvList)
 		nilEdgesDone := condEdges(sup, func(cond ssa.Value) (bool, bool) {
 			bo, ok := cond.(*ssa.BinOp)
 			if !ok || (bo.Op != token.NEQ && bo.Op != token.EQL) {
 				return false, false
 			}
-			if !(chanName(bo.X) == done && isNilConst(bo.Y)) && !(chanName(bo.Y) == done && isNilConst(bo.X)) {
+			if !(isDone(bo.X) && isNilConst(bo.Y)) && !(isDone(bo.Y) && isNilConst(bo.X)) {
 				return false, false
 			}
 			if bo.Op == token.NEQ {
